@@ -4,6 +4,8 @@ import (
 	"context"
 	"errors"
 	"fmt"
+	"github.com/jeroenrinzema/psql-wire/codes"
+	psqlerr "github.com/jeroenrinzema/psql-wire/errors"
 	"net"
 	"strings"
 
@@ -27,7 +29,9 @@ type c19Config struct {
 	// CloseErr: the transport's Close reports an error (the connection is closed all the same)
 	DeriveCtx bool
 	CloseErr  bool
-	Remote    string // "" = the in-memory address; otherwise the kind of net.Addr the transport reports (c19Remotes)
+	// FailSeverity: the failing middleware decorates its error with this severity (WARNING, NOTICE ...)
+	FailSeverity string
+	Remote       string // "" = the in-memory address; otherwise the kind of net.Addr the transport reports (c19Remotes)
 }
 
 // c19Remotes: remote addresses as real listeners report them.
@@ -41,6 +45,9 @@ var c19Remotes = map[string]net.Addr{
 }
 
 func (c c19Config) String() string {
+	if c.FailSeverity != "" {
+		return fmt.Sprintf("middlewares=%d failing=%d (with an error of severity %s) auth=%v terminate_hook=%s", c.M, c.FailAt, c.FailSeverity, c.Auth, c.Hook)
+	}
 	if c.DeriveCtx || c.CloseErr {
 		return fmt.Sprintf("middlewares=%d auth=%v terminate_hook=%s validator_derives_a_context=%v transport_close_reports_an_error=%v", c.M, c.Auth, c.Hook, c.DeriveCtx, c.CloseErr)
 	}
@@ -118,6 +125,68 @@ func (s *c19State) checkCtx(ctx context.Context, where string) {
 	s.ctxs = append(s.ctxs, ctx)
 }
 
+// c19RunCancelMeanwhile: while a statement function of connection A is running, other connections from the same host
+// send CancelRequest packets (the library hands out no backend key: a cancel request refers to nothing). A's
+// command context is not cancelled before its command ends.
+func c19RunCancelMeanwhile(n int, auth bool) explore.Result {
+	var res explore.Result
+	res.Outcome = "served"
+	res.Key = fmt.Sprint("cancel-meanwhile", n, auth)
+	var srv *harness.Server
+	var during, after []error
+	var ctxs []context.Context
+	parse := func(ctx context.Context, q string) (wire.PreparedStatements, error) {
+		return wire.Prepared(wire.NewStatement(func(ctx context.Context, w wire.DataWriter, p []wire.Parameter) error {
+			w.Row([]any{"before"})
+			for i := 0; i < n; i++ {
+				// (raw transport: the harness's own quiescence wait would wait for THIS goroutine)
+				mc := memnet.NewConn(fmt.Sprintf("mem:cancel%d", i))
+				mc.Push(pgproto.CancelRequest(uint32(i), 7))
+				mc.EOF()
+				srv.ConnectWith(mc)
+				mc.AwaitClose()
+			}
+			during = append(during, ctx.Err())
+			ctxs = append(ctxs, ctx)
+			w.Row([]any{"after"})
+			return w.Complete("SELECT 2")
+		}, wire.WithColumns(wire.Columns{{Name: "a", Oid: 25}}))), nil
+	}
+	var opts []wire.OptionFn
+	if auth {
+		opts = append(opts, wire.SessionAuthStrategy(wire.ClearTextPassword(func(ctx context.Context, db, u, pw string) (context.Context, bool, error) { return ctx, true, nil })))
+	}
+	var err error
+	srv, err = harness.NewServer(parse, opts...)
+	if err != nil {
+		res.Engine = err.Error()
+		return res
+	}
+	defer srv.Stop()
+	a := srv.Connect()
+	a.Step(pgproto.Startup("user", "alice"))
+	if auth {
+		a.Step(pgproto.Password("pw"))
+	}
+	out, _ := a.Step(pgproto.Query("q"))
+	out2, _ := a.Step(pgproto.Cat(pgproto.Parse("", "q"), pgproto.Bind("", "", nil, nil, nil), pgproto.Execute("", 0), pgproto.Sync()))
+	for _, c := range ctxs {
+		after = append(after, c.Err())
+	}
+	for i := range during {
+		if during[i] != nil {
+			res.Fail("context-propagation", fmt.Sprintf("%d CancelRequest packets arrived from the same host while statement %d of another connection was running: its command context reads %v inside the running statement", n, i+1, during[i]))
+		}
+		if after[i] == nil {
+			res.Fail("context-not-cancelled", fmt.Sprintf("the context of command %d is still live after the command has ended", i+1))
+		}
+	}
+	if k := harness.Kinds(out) + " " + harness.Kinds(out2); k != "TDDCZ 12DDCZ" || len(during) != 2 {
+		res.Fail("reply", fmt.Sprintf("a statement during which %d CancelRequest connections came and went: replies %q (statement ran %d times)", n, k, len(during)))
+	}
+	return res
+}
+
 // c19Build: parser, statement hook, middlewares, auth and terminate hook of a configuration, all probing st.
 func c19Build(cfg c19Config, st *c19State, rec *script.Rec) (wire.ParseFn, []wire.OptionFn) {
 	rec.Hook = func(ctx context.Context, where string) {
@@ -164,10 +233,15 @@ func c19Build(cfg c19Config, st *c19State, rec *script.Rec) (wire.ParseFn, []wir
 				st.problems = append(st.problems, fmt.Sprintf("middleware %d: client/server parameters missing from its context", i))
 			}
 			if i == cfg.FailAt {
-				if cfg.NilCtx {
-					return nil, errors.New("middleware refuses the session")
+				var err error = errors.New("middleware refuses the session")
+				if cfg.FailSeverity != "" {
+					// an error is an error, whatever severity it was decorated with
+					err = psqlerr.WithSeverity(psqlerr.WithCode(err, codes.Code("28000")), psqlerr.Severity(cfg.FailSeverity))
 				}
-				return ctx, errors.New("middleware refuses the session")
+				if cfg.NilCtx {
+					return nil, err
+				}
+				return ctx, err
 			}
 			return context.WithValue(ctx, mwKey(i), fmt.Sprintf("set-by-mw%d", i)), nil
 		}))
@@ -762,6 +836,39 @@ func c19Enumerate(tier string, emit explore.Emit) {
 					Run: func() explore.Result { return c19RunFault(cfg, hist, k) }})
 			}
 		})
+	}
+	// a middleware that fails with an error decorated with a severity: the connection ends all the same
+	for _, sev := range []string{"WARNING", "NOTICE", "INFO", "LOG", "DEBUG", "ERROR", "FATAL"} {
+		for _, fail := range []int{1, 2, 3} {
+			for _, auth := range []bool{false, true} {
+				cfg := c19Config{M: 3, FailAt: fail, Auth: auth, Hook: "ok", FailSeverity: sev}
+				forShapes(len(letters), 1, func(sh []int) {
+					hist := make([]c19Letter, len(sh))
+					for i, s := range sh {
+						hist[i] = letters[s]
+					}
+					for _, seg := range []bool{false, true} {
+						seg := seg
+						emit(explore.Case{Family: "lifecycle", Size: 2 + len(hist),
+							Desc: func() any {
+								return map[string]any{"config": cfg.String(), "history": c19Names(hist), "one_segment": seg}
+							},
+							Run: func() explore.Result { return c19Run(cfg, hist, seg) }})
+					}
+				})
+			}
+		}
+	}
+	// a CancelRequest arriving from the same host while a statement of another connection is running: that
+	// statement's context stays live until its command ends
+	for _, n := range []int{1, 3} {
+		for _, auth := range []bool{false, true} {
+			n, auth := n, auth
+			emit(explore.Case{Family: "several-connections", Size: 4, Desc: func() any {
+				return map[string]any{"cancel_requests_from_the_same_host_while_a_statement_runs": n, "auth": auth}
+			},
+				Run: func() explore.Result { return c19RunCancelMeanwhile(n, auth) }})
+		}
 	}
 	// a validator that hands back a derived context; a transport whose Close reports an error
 	for _, v := range [][2]bool{{true, false}, {false, true}, {true, true}} {
